@@ -215,9 +215,9 @@ theorem fire_noH {m : MDef} {f : Nat} {st s1 : St} {ev : Ev} (h : fire m noHandl
   | zero => simp [fire] at h
   | succ f =>
     cases f with
-    | zero => simp [fire, performAll] at h
+    | zero => simp [fire, runCallbacks] at h
     | succ f =>
-      have : performAll m noHandlers (f+1) { st with log := st.log ++ [ev] } [] = .ok { st with log := st.log ++ [ev] } := rfl
+      have : runCallbacks m noHandlers (f+1) { st with log := st.log ++ [ev] } [] = .ok { st with log := st.log ++ [ev] } := rfl
       simp only [fire, noHandlers] at h; rw [this] at h; simp at h; exact h.symm
 
 theorem fire_noH_fail {m : MDef} {f : Nat} {st s1 : St} {ev : Ev} {e : Fail} (h : fire m noHandlers f st ev = .fail e s1) :
@@ -226,9 +226,9 @@ theorem fire_noH_fail {m : MDef} {f : Nat} {st s1 : St} {ev : Ev} {e : Fail} (h 
   | zero => simp [fire] at h; exact h.1.symm
   | succ f =>
     cases f with
-    | zero => simp [fire, performAll] at h; exact h.1.symm
+    | zero => simp [fire, runCallbacks] at h; exact h.1.symm
     | succ f =>
-      have : performAll m noHandlers (f+1) { st with log := st.log ++ [ev] } [] = .ok { st with log := st.log ++ [ev] } := rfl
+      have : runCallbacks m noHandlers (f+1) { st with log := st.log ++ [ev] } [] = .ok { st with log := st.log ++ [ev] } := rfl
       simp only [fire, noHandlers] at h; rw [this] at h; simp at h
 
 theorem leave_noH {m : MDef} : ∀ f st s dest st', leave m noHandlers f st s dest = .ok st' →
